@@ -212,6 +212,46 @@ Proof.
     try (apply read_error_cmd_ok, I); try (eapply read_macro_args_ok; eassumption).
 Qed.
 
+Lemma read_command_cc_ok ls no s ln ot s' ln' ls' :
+  read_command_cc ls no s ln = Ok (ot, s', ln', ls') -> LI ls -> LI ls'.
+Proof.
+  unfold read_command_cc, cc_warn. intros H I. repeat brk H;
+    injection H as <- <- <- <-; try exact I; try (apply lx_add_log_ok, I); eapply read_args_tokens_ok; eassumption.
+Qed.
+Lemma read_cc_ok ls is_c s ln ot s' ln' ls' :
+  read_cc ls is_c s ln = Ok (ot, s', ln', ls') -> LI ls -> LI ls'.
+Proof.
+  unfold read_cc. intros H I. repeat brk H;
+    try (injection H as ->; eapply read_command_cc_ok; eassumption);
+    injection H as <- <- <- <-; try exact I; apply read_error_cmd_ok, I.
+Qed.
+Lemma read_rpn_command_ok ls nrpn msb lsb s ln ot s' ln' ls' :
+  read_rpn_command ls nrpn msb lsb s ln = Ok (ot, s', ln', ls') -> LI ls -> LI ls'.
+Proof.
+  unfold read_rpn_command. intros H I. repeat brk H;
+    injection H as <- <- <- <-; try exact I; eapply read_args_tokens_ok; eassumption.
+Qed.
+Lemma read_play_ok ls s ln ot s' ln' ls' :
+  read_play ls s ln = Ok (ot, s', ln', ls') -> LI ls -> LI ls'.
+Proof.
+  unfold read_play. intros H I. repeat brk H; injection H as <- <- <- <-. eapply read_macro_args_ok; eassumption.
+Qed.
+Lemma read_def_str_ok ls s ln ot s' ln' ls' :
+  read_def_str ls s ln = Ok (ot, s', ln', ls') -> LI ls -> LI ls'.
+Proof.
+  unfold read_def_str. intros H I. repeat brk H;
+    injection H as <- <- <- <-; try exact I; apply lx_add_log_ok, I.
+Qed.
+Lemma read_ext_command_ok ls ttype argt tag1 tag2 s ln ot s' ln' ls' :
+  read_ext_command ls ttype argt tag1 tag2 s ln = Ok (ot, s', ln', ls') -> LI ls -> LI ls'.
+Proof.
+  unfold read_ext_command. intros H I. repeat brk H;
+    try (injection H as ->; first [eapply read_cc_ok; eassumption | eapply read_command_cc_ok; eassumption
+                                  | eapply read_rpn_command_ok; eassumption | eapply read_play_ok; eassumption
+                                  | eapply read_def_str_ok; eassumption]);
+    injection H as <- <- <- <-; try exact I; eapply read_args_tokens_ok; eassumption.
+Qed.
+
 Section LoopInv.
 Variable sublex : lexstate -> list Z -> Z -> res lex_out.
 Hypothesis sub_ok : forall ls s ln toks ls', sublex ls s ln = Ok (toks, ls') -> LI ls -> LI ls'.
@@ -230,6 +270,8 @@ Proof.
   try (apply lex_error_ok, I); try (apply lx_add_log_ok, I);
   try (eapply check_variables_ok; eassumption);
   try (eapply read_args_tokens_ok; eassumption);
+  try (eapply read_cc_ok; eassumption);
+  try (eapply read_ext_command_ok; eassumption);
   try (eapply sub_ok; eassumption).
 Qed.
 End LoopInv.
@@ -237,7 +279,7 @@ End LoopInv.
 Lemma lex_f_log_ok : forall f ls src ln toks ls', lex_f f ls src ln = Ok (toks, ls') -> LI ls -> LI ls'.
 Proof.
   induction f as [|f IH]; intros ls src ln toks ls' H I; [discriminate H|].
-  rewrite lex_f_unfold in H. unfold LOOP in H. eapply LOOPG_log_ok; [exact IH|exact H|exact I].
+  rewrite lex_f_unfold in H. destruct (lex_pre src); [discriminate H|]. unfold LOOP in H. eapply LOOPG_log_ok; [exact IH|exact H|exact I].
 Qed.
 Lemma lex_log_ok ls src ln toks ls' :
   lex ls src ln = Ok (toks, ls') -> zlen (lx_logs ls) <= SAKURA_MAX_LOGS -> zlen (lx_logs ls') <= SAKURA_MAX_LOGS.
